@@ -67,7 +67,7 @@ def is_writable(ip, v):
     """May the caller let a callee modify v?  (fresh in this activation, or covered by the caller's own modifies)"""
     from .builtins_model import FreshZ
     if isinstance(v, FreshZ):
-        return True
+        return bool(v.deep)       # handing a value over for modification means deep modification: a shallow copy will not do
     if isinstance(v, (SObj, LList, LDict)):
         return bool(v.fresh) or id(v) in ip.modifies_ok or (isinstance(v, SObj) and (v.oid, "*") in ip.modifies_ok)
     if isinstance(v, C) and isinstance(v.v, (type(None), bool, int, float, str)):
@@ -76,7 +76,8 @@ def is_writable(ip, v):
 
 
 def _attr_writable(ip, v, attr):
-    if is_writable(ip, v):
+    from .builtins_model import FreshZ
+    if is_writable(ip, v) or isinstance(v, FreshZ):
         return True
     return isinstance(v, Z) and ("zattr", v.t.get_id(), attr) in ip.modifies_ok
 
@@ -235,7 +236,7 @@ def _apply(ip, con, env, f, args, kwargs):
         result.attrs[fname] = env[pname]
     if con.fresh_result and isinstance(result, Z):
         from .builtins_model import FreshZ
-        result = FreshZ(result.t, result.cls, True)
+        result = FreshZ(result.t, result.cls, False)      # a new outer object / container; what it holds is shared
     if con.ensures is not None:
         env2 = dict(env)
         env2["result"] = result
